@@ -69,7 +69,9 @@ class Labels:
                 # which branch: protein atoms or hetero
                 from sa.astutil import fact_texts
                 facts = fact_texts(node, gi)
-                kind = 'protein' if any(p and t == "self.atom.type == 'atom'" for t, p in facts) else 'hetero'
+                aparams = [a.arg for a in gi.args.args if a.arg != 'self']
+                prot = {"self.atom.type == 'atom'"} | {"%s.type == 'atom'" % a for a in aparams[:1]}
+                kind = 'protein' if any(p and t in prot for t, p in facts) else 'hetero'
                 self.defs.setdefault('label:' + kind, []).append((comps, node, gmod))
 
     @staticmethod
